@@ -31,7 +31,13 @@ caller-skip arithmetic, errors as arguments), and a sixth round of twelve
 *group of API functions* (leaf constructors, message wrappers, hint/detail,
 issue links / telemetry, domains, barriers, markers, unwrap / As, encode / decode
 entry points, formatting entry points, context tags / safe details,
-http / grpc / oserror). Nothing from `/verif` was ever
+http / grpc / oserror), and a seventh round of twelve (`T01-r7` … `T12-r7`) in
+which each agent got all twenty properties and one *theme*: four on data races
+and hidden shared state under read-only use (wrapper types, formatting engine,
+encode path and identity, decoded representations), and one each on migrations,
+opaque pass-through, the gRPC interceptors, barriers × identity, secondary /
+multi-cause × verbose formatting, the Sentry report, the special-case formatting
+of well-known foreign errors, and the encode / decode adapters. Nothing from `/verif` was ever
 shown. Each was **confirmed independently** before being kept
 (`tools/confirm_mutant.sh`): the patch applies to the clean tree, the library
 builds with and without the `verif` tag, the demonstration passes without the
@@ -50,7 +56,7 @@ suite is thin.
 Outcome: **every one of the {n} changes is reported as a VIOLATION by the quick
 tier of the check of the property it was written against** (seed 1). About a
 quarter of them were *missed* by the version of the monitor that existed when
-they arrived (round 1: 3, round 2: 8, round 3: 7, round 4: 2, round 5: 3, round 6: 4) and led to the
+they arrived (round 1: 3, round 2: 8, round 3: 7, round 4: 2, round 5: 3, round 6: 4, round 7: 7) and led to the
 strengthenings listed below the table; none led to loosening a check.
 
 | seeded | property | change | needs, in order to manifest | caught by (signatures) |
@@ -66,7 +72,17 @@ argument values at their boundaries (empty, zero, nil, multi-line), foreign
 types with unusual method sets, and the ownership of what goes into and comes out
 of the API.
 
-* **C04** — one `elidewrap` node in three overrides its cause's message with the
+* **C01 / C09 / C13** — the new kind `operrboth` (a `*net.OpError` with both a
+  local and a remote address), added after `T11-r7`, exposed a genuine defect on
+  the unchanged tree (finding F18, §7); the kind has weight 0 and is placed only
+  by three explicit probes.
+* **C02** — the `markempty` kind: `Mark` with a reference whose text is empty
+  (`T08-r7`); the unknowing processes of every second case do not link the
+  payload message types either (see C04).
+* **C04** — the unknowing-process simulation got a second mode (`NoProto`): the
+  type URLs of the payloads of the forgotten types are made unresolvable on the
+  way in and restored on the way out, as for a binary built without the package
+  that defines the type (`T06-r7`); one `elidewrap` node in three overrides its cause's message with the
   *empty* string (`C04-r2`).
 * **C07** — reachability also through every layer's own `Unwrap()` / `Cause()`
   methods and the standard library's walk; `Unwrap()` must agree with `Cause()`
@@ -87,11 +103,17 @@ of the API.
 * **C11** — the `tagsafe` kind: `Safe()`, nil and int tag values (`C11`); the
   `unimpld` kind: unimplemented error whose link has only a detail (`C11-r2`);
   the zero code value, `codes.OK` / HTTP 0 (`C11-r3`); the `domainnone` kind,
-  `WithDomain(e, NoDomain)` (`G05-r6`).
+  `WithDomain(e, NoDomain)` (`G05-r6`); the simulated foreign sender of an errno
+  varies (another OS, the same OS on another CPU architecture, unheard of) and
+  may use another number for the same error, and the first receiver is compared
+  with the origin (text, predicates, accessors) (`T12-r7`).
 * **C12** — every stage is observed twice: reporting must not consume what it
   reports (`C12-r2`).
 * **C13** — the builder overwrites its own slice after spreading it into `Join`
-  (`C13-r2`).
+  (`C13-r2`); the `joinbare` kind, the sub-package's `join.Join` without a stack
+  layer, so that joins nest directly (`T09-r7`).
+* **C09** — `*net.OpError` with only a local address and with no address
+  (`operrsrc`, `operrnone`) (`T11-r7`).
 * **C14** — a leaf and a *wrapper* type with their own `As` methods; the wrapper
   declines every target but one, and the search must go on below it (`C14-r3`).
   A value-typed, non-comparable third-party wrapper (`ncwrap`), and
@@ -114,7 +136,14 @@ of the API.
   (`K03-r5`: a type-details cache with incomplete invalidation).
 * **C18** — the shared value stays *cold*: the "executed alone" reference is
   computed on a twin built from the same descriptor at the same call site, and
-  again on the shared value afterwards (`C18`).
+  again on the shared value afterwards (`C18`); every operation is also run as
+  the *first* call on its own fresh identical value and compared with the
+  reference (a read-only call must not depend on, or leave behind, state from
+  other read-only calls); the trees get up to three annotation wrappers on top;
+  a new operation `IsAny` with references that do not match at the top, so that
+  the search walks the whole chain; the builder hands `WithTelemetry` a private
+  copy of the keys — the descriptor's slice was shared by every build and by
+  the model, which hid an in-place sort (`T01-r7`, `T03-r7`).
 * **C19** — a decoded stage: the accessor model must also hold on the error
   decoded at a knowing process (`C19-r2`); the slices returned by
   `GetTelemetryKeys` / `GetAllHints` / `GetAllDetails` / `GetAllIssueLinks` are
